@@ -47,6 +47,15 @@ class MatFold(VecFold):
             return self.vecsym(v)
         return super().scalarize(v)
 
+    def devec(self, e):
+        """replace registered vector atoms that are plain views of a matrix-algebra value (element k of X) by X itself"""
+        rep_ = {}
+        for nm, v in self.vecs.items():
+            x = v.e
+            if str(getattr(x, "func", "")) == "at" and len(x.args) == 2 and x.args[1] == K and getattr(x.args[0], "is_commutative", True) is False:
+                rep_[NCS(nm)] = x.args[0]
+        return e.xreplace(rep_) if rep_ and hasattr(e, "xreplace") else e
+
     def atom_for(self, n, env):
         t = n.get("type") or ""
         if is_nc_type(t):
@@ -120,3 +129,16 @@ def nc_factors(e):
     if getattr(e, "is_commutative", True) is False:
         return sp.Integer(1), [e]
     return e, []
+
+
+def nc_is_zero(e):
+    """exact zero test for sum_k c_k * (ordered non-commutative monomial_k) with commutative rational coefficients"""
+    e = sp.expand(e)
+    if e == 0:
+        return True
+    groups = {}
+    for t in (e.args if isinstance(e, sp.Add) else [e]):
+        c, nc = t.args_cnc() if hasattr(t, "args_cnc") else ([t], [])
+        key = tuple(str(x) for x in nc)
+        groups[key] = groups.get(key, 0) + sp.Mul(*c)
+    return all(sp.simplify(sp.together(c)) == 0 for c in groups.values())
